@@ -122,3 +122,35 @@ def import_rules(rep, tier, module, wanted, new_id, text):
         if not any(o.ident() == v.ident() for o in rep.violations):
             rep.violations.append(v)
     return n
+
+
+def join_wakeup(F):
+    """The callable pika::thread::join registers as exit callback on the joined thread, found from the registration
+    itself (not by name): returns (join, body function, expression of the thread id it resumes as seen in join()).
+    Accepted shapes: bind/bind_front(&f, id) with f a function of the TU, or a lambda that captures id."""
+    from engine.core import strip, callee_short, subexprs
+    jn = [f for f in F.find(r"^pika::thread::join$") if f.parent == -1]
+    if len(jn) != 1:
+        raise AnalysisBroken("pika::thread::join not found")
+    jn = jn[0]
+    cb = [e for _, _, e in jn.all_events() if e.get("k") == "call" and callee_short(e) == "add_thread_exit_callback"]
+    if len(cb) != 1 or len(cb[0].get("args") or []) < 2:
+        raise AnalysisBroken("thread::join: registration of the exit callback not found")
+    a = cb[0]["args"][1]
+    lam = subexprs(a, lambda y: isinstance(y, dict) and y.get("k") == "lambda")
+    fnref = subexprs(a, lambda y: isinstance(y, dict) and y.get("k") == "fn")
+    if lam:
+        body = F.by_id.get(lam[0].get("id"))
+        if body is None:
+            raise AnalysisBroken("thread::join: body of the exit-callback lambda not extracted")
+        # the id is whatever the lambda hands to set_thread_state
+        ids = [e["args"][0] for _, _, e in body.all_events() if e.get("k") == "call" and callee_short(e) == "set_thread_state" and e.get("args")]
+        return jn, body, (ids[0] if ids else None), cb[0]
+    if fnref:
+        body = [f for f in F.fns if f.qname == fnref[0].get("name") and f.parent == -1]
+        if not body:
+            raise AnalysisBroken("thread::join: exit callback %s not extracted" % fnref[0].get("name"))
+        bound = [x for x in subexprs(a, lambda y: isinstance(y, dict) and y.get("k") == "call" and "bind" in str(y.get("callee", "")))]
+        idx = bound[0]["args"][1] if bound and len(bound[0].get("args") or []) >= 2 else None
+        return jn, body[0], idx, cb[0]
+    raise AnalysisBroken("thread::join: the exit callback is neither a lambda nor a bound function")
